@@ -57,6 +57,10 @@ type c15Cfg struct {
 	Rekeyed bool
 	// Bare: the lists carry no crlExtensions (no cRLNumber, no authority key identifier), like v1 lists
 	Bare bool
+	// DeadNeighbours: the validator has four more configured crl_urls which are gone for good once it runs (their
+	// identifiers sort before and behind the one under observation): what cannot be refreshed does not keep the rest from
+	// being refreshed
+	DeadNeighbours bool
 }
 
 func (c c15Cfg) String() string {
@@ -91,6 +95,9 @@ func (c c15Cfg) String() string {
 	}
 	if c.Bare {
 		late += " lists-without-crlExtensions"
+	}
+	if c.DeadNeighbours {
+		late += " four-other-configured-urls-gone-for-good"
 	}
 	return fmt.Sprintf("instances=%d intervals=%v phases=%v download=%s script=%q sig=%s background=%v source=%s%s", c.N, c.Intervals, c.Phases, c.Dur, c.Script, sm, c.Background, c.Source, late)
 }
@@ -179,6 +186,14 @@ func c15Run(cfg c15Cfg) (o c15Obs) {
 			switch cfg.Source {
 			case "crl_urls":
 				o2.URLs = []string{c15URL(i)}
+				if cfg.DeadNeighbours {
+					for k := 0; k < 4; k++ {
+						u := fmt.Sprintf("http://crl.test/neighbour-%d-of-inst%d.crl", k, i)
+						net.Serve(u, "neighbour", world.SimpleCRL(p.CA, 1, int64(840+k)).DER())
+						o2.URLs = append(o2.URLs, u)
+						defer net.Down(u) // gone as soon as the validator is provisioned
+					}
+				}
 			case "crl_files":
 				os.WriteFile(fileOf(i), v1, 0644)
 				o2.Files = []string{fileOf(i)}
@@ -301,6 +316,9 @@ func c15Run(cfg c15Cfg) (o c15Obs) {
 						if cfg.Bare {
 							rk += " lists-without-crlExtensions"
 						}
+						if cfg.DeadNeighbours {
+							rk += " four-other-configured-urls-gone-for-good"
+						}
 						o.Viols = append(o.Viols, c14Viol{fmt.Sprintf("C15|new-revocation-not-enforced|source=%s sig=%d background=%v instances=%d%s", cfg.Source, cfg.Sig, cfg.Background, cfg.N, rk),
 							fmt.Sprintf("instance %d (interval %s): certificate revoked in the CRL obtainable since %s is still accepted at %s (bound %s)", i, cfg.Intervals[i], publishedAt[i].Sub(start), vsched.Now().Sub(start), B(i))})
 					}
@@ -407,6 +425,10 @@ func c15Configs(tier string) []c15Cfg {
 				out = append(out, c15Cfg{N: 1, Intervals: []time.Duration{I}, Script: "", Sig: config.SignatureValidationModeVerify, Background: bg, Source: src, Moved: code})
 			}
 		}
+	}
+	// four other configured locations are gone for good
+	for _, bg := range []bool{false, true} {
+		out = append(out, c15Cfg{N: 1, Intervals: []time.Duration{I}, Script: "", Sig: config.SignatureValidationModeVerify, Background: bg, Source: "crl_urls", DeadNeighbours: true})
 	}
 	// lists without crlExtensions
 	for _, src := range []string{"crl_files", "crl_urls", "cdp"} {
